@@ -268,7 +268,7 @@ func c09Run(fn func()) (panicked string, hung bool) {
 	select {
 	case p := <-done:
 		return p, false
-	case <-time.After(10 * time.Second):
+	case <-time.After(5 * time.Second):
 		return "", true
 	}
 }
@@ -397,7 +397,8 @@ func c09MsgCase(c *h.Ctx, k *c09Case, stats map[string]int) {
 		s2 := map[string]interface{}{"kind": k.K, "shape_q_an_ns_ar_variant": k.Shape, "input": what, "wire": c09Short(data)}
 		switch {
 		case hung:
-			c.Fail("llmnr.DecodeMessage", pre+"non-termination", "no result after 10s on "+what, s2)
+			c.Fail("llmnr.DecodeMessage", pre+"non-termination", "no result after 5 s on "+what, s2)
+			c.StopAfterHang()
 		case p != "":
 			c.Fail("llmnr.DecodeMessage", pre+aspect+":panic", p, s2)
 		case derr != nil:
@@ -471,6 +472,9 @@ func c09NameCase(c *h.Ctx, k *c09Case) {
 		switch {
 		case hung || p != "":
 			c.Fail("llmnr.DecodeDomainName", in.aspect+":panic-or-hang", p, smp)
+			if hung {
+				c.StopAfterHang()
+			}
 		case derr != nil:
 			c.Fail("llmnr.DecodeDomainName", in.aspect+":rejected", in.what+": "+derr.Error(), smp)
 		default:
@@ -499,7 +503,8 @@ func c09ArenaCase(c *h.Ctx, k *c09Case, cur *c09Cur, stats map[string]int) {
 		s2 := map[string]interface{}{"arena_hex": h.Hex(k.Data), "offset": s, "spec": map[string]interface{}{"ok": want.OK, "why": want.Why, "name": want.Name, "end": want.End, "pointers_followed": want.Ptrs}}
 		site := "llmnr.DecodeDomainName"
 		if hung {
-			c.Fail(site, "non-termination", fmt.Sprintf("no result after 10s at offset %d", s), s2)
+			c.Fail(site, "non-termination", fmt.Sprintf("no result after 5 s at offset %d", s), s2)
+			c.StopAfterHang()
 			continue
 		}
 		switch {
@@ -552,7 +557,8 @@ func c09ArenaCase(c *h.Ctx, k *c09Case, cur *c09Cur, stats map[string]int) {
 	site := "llmnr.DecodeMessage"
 	s2 := map[string]interface{}{"arena_hex": h.Hex(k.Data), "spec": map[string]interface{}{"ok": k.Msg.OK, "fails_at": k.Msg.At, "why": k.Msg.Why}}
 	if hung {
-		c.Fail(site, "non-termination", "no result after 10s", s2)
+		c.Fail(site, "non-termination", "no result after 5 s", s2)
+		c.StopAfterHang()
 		return
 	}
 	switch {
